@@ -1398,8 +1398,14 @@ class AgProtocol(utils.EventEmitter):
 
         at_bcs_future = asyncio.get_running_loop().create_future()
         self.once('codec_negotiation', at_bcs_future.set_result)
-        self.send_response(f'+BCS: {codec.value}')
-        if (new_codec := await at_bcs_future) != codec:
+        try:
+            self.send_response(f'+BCS: {codec.value}')
+            new_codec = await at_bcs_future
+        finally:
+            if at_bcs_future.cancelled() or not at_bcs_future.done():
+                # Don't leave the listener behind when the caller gives up
+                self.remove_listener('codec_negotiation', at_bcs_future.set_result)
+        if new_codec != codec:
             raise HfpProtocolError(f'Expect codec: {codec}, but get {new_codec}')
 
     def send_cli_notification(self, cli: CallLineIdentification) -> None:
